@@ -1167,4 +1167,87 @@ theorem explained_reach (c c' : Config) (es : List Ev) (h : Explained c es c')
       subst hjx
       exact hc _ (List.getElem_mem hj')
 
+/-! ### refused writes -/
+
+theorem append_success_ne_err (out : List Reply) (op op' : Bytes) (e : Err) :
+    out ++ [({ op := op, ty := .success } : Reply)] ≠ [errReply op' e] := by
+  intro h
+  cases out with
+  | nil => simp [errReply] at h
+  | cons x xs =>
+    cases xs with
+    | nil => simp at h
+    | cons y ys => simp at h
+
+theorem refused_write_dbs (st : St) (msg : Bytes) (an : Annot) (op : Bytes) (e : Err)
+    (hk : (classify msg).kind = .write)
+    (herr : (handle st msg an).2 = [errReply op e]) : (handle st msg an).1.dbs = st.dbs := by
+  unfold handle at herr ⊢
+  generalize classify msg = m at hk herr ⊢
+  cases m with
+  | malformed => simp [Msg.kind] at hk
+  | unknown op => simp [Msg.kind] at hk
+  | cancel op => simp [Msg.kind] at hk
+  | read c op' arg =>
+    cases c <;> simp [Msg.kind] at hk
+    simp only at herr ⊢
+    cases hg : getRec st arg with
+    | error e' => rfl
+    | ok v =>
+      obtain ⟨a, b, r⟩ := v
+      simp only [hg] at herr
+      simp only [runPc, step, stepStart, stepWrite, List.append_nil] at herr
+      exact absurd herr (append_success_ne_err _ _ _ _)
+  | write c op' key payload =>
+    cases c with
+    | insert =>
+      simp only at herr ⊢
+      cases hg : getRec st key with
+      | error e' => rfl
+      | ok v =>
+        obtain ⟨a, b, r⟩ := v
+        simp only [hg] at herr ⊢
+        split
+        · rfl
+        · split
+          · rfl
+          · rename_i h1 h2
+            simp only [h1, h2, if_false] at herr
+            cases hp : putRec st key { r with untracked := true, obj := an.obj } with
+            | error e' => rfl
+            | ok w =>
+              obtain ⟨st', out⟩ := w
+              simp only [hp, runPc, step, stepStart, stepWrite, List.append_nil] at herr
+              exact absurd herr (append_success_ne_err _ _ _ _)
+    | create =>
+      simp only at herr ⊢
+      cases payload with
+      | nil => rfl
+      | cons f t =>
+        cases t with
+        | nil => rfl
+        | cons b rest =>
+          simp only at herr ⊢
+          cases hp : putRec st key { fmt := f, data := b :: rest, obj := an.obj } with
+          | error e' => rfl
+          | ok w =>
+            obtain ⟨st', out⟩ := w
+            simp only [hp, runPc, step, stepStart, stepWrite, List.append_nil] at herr
+            exact absurd herr (append_success_ne_err _ _ _ _)
+    | update =>
+      simp only at herr ⊢
+      cases payload with
+      | nil => rfl
+      | cons f t =>
+        cases t with
+        | nil => rfl
+        | cons b rest =>
+          simp only at herr ⊢
+          cases hp : putRec st key { fmt := f, data := b :: rest, obj := an.obj } with
+          | error e' => rfl
+          | ok w =>
+            obtain ⟨st', out⟩ := w
+            simp only [hp, runPc, step, stepStart, stepWrite, List.append_nil] at herr
+            exact absurd herr (append_success_ne_err _ _ _ _)
+
 end PB.DbApi
